@@ -389,6 +389,25 @@ impl<'a> Cx<'a> {
         pre.push(format!("GM.handleAllocError (α := Unit) {}", l));
         return Ok((pre, "()".into(), Kind::Unit));
       }
+      "read" if nargs == 1 && full.ends_with("ptr::read") && !self.pure => {
+        // `ptr::read(<data pointer>.sub(<bytes>).cast::<usize>())`: the word in front of the elements
+        if let Expr::MethodCall(castm) = strip(&c.args[0]) {
+          if castm.method == "cast" && toks(castm).replace(' ', "").ends_with(".cast::<usize>()") {
+            if let Expr::MethodCall(subm) = strip(&castm.receiver) {
+              if subm.method == "sub" && subm.args.len() == 1 {
+                let (tp, t, tk) = self.expr(&subm.receiver)?;
+                if tk == Kind::DPtr {
+                  pre.extend(tp);
+                  let off = self.nat(&subm.args[0], &mut pre)?;
+                  let v = self.bind(&mut pre, format!("GM.readMirror {} {}", t, off));
+                  return Ok((pre, v, Kind::Nat));
+                }
+              }
+            }
+          }
+        }
+        return Err(format!("`{}`", toks(c)));
+      }
       "write" if nargs == 2 && full.ends_with("ptr::write") && !self.pure => {
         // `ptr::write(<block>.add(<offset>).cast::<usize>(), <value>)`: the word in front of the elements
         if let Expr::MethodCall(castm) = strip(&c.args[0]) {
